@@ -12,6 +12,7 @@ Definition Sx (cpp : bool) (ts : list ptok) (tr : ast) (rk : nat) : Prop :=
     (forall r a, r < rk -> quiet cpp r (rev ts ++ bef s) a rest) ->
     (rk = 14 -> forall a, quiet cpp 14 (rev ts ++ bef s) (S a) rest) ->
     (rk = 1 -> forall a, quiet cpp 1 (rev ts ++ bef s) a rest) ->
+    (rk = 14 -> hasq ts = true -> quiet cpp 14 (rev ts ++ bef s) 0 rest) ->
     cont cpp (comp cpp f) (S f) n rk d (mkafter s ts tr, rest) = Some out ->
     comp cpp (S f) d (s, ts ++ rest) = Some out.
 
@@ -47,7 +48,7 @@ Lemma Sx_atom : forall cpp t,
   match snd t with TLB => False | _ => True end ->
   Sx cpp [t] (L t) 0.
 Proof.
-  intros cpp t Hterm Hnlb f d s rest out n Hrk Hd Hn Hlen Hop Hps Hj Hnd Hq Hq14 Hq1 Hc.
+  intros cpp t Hterm Hnlb f d s rest out n Hrk Hd Hn Hlen Hop Hps Hj Hnd Hq Hq14 Hq1 Hz Hc.
   rewrite comp_eq. cbn [app].
   assert (Hh : p2_head (s, t :: rest) = Some (mkafter s [t] (L t), rest)).
   { unfold p2_head. destruct (snd t) eqn:E; try (unfold scope; apply Hterm; assumption). destruct Hnlb. }
@@ -108,7 +109,7 @@ Lemma Sx_paren : forall cpp ts tr rk l1 l2,
   Sx cpp ts tr rk -> rk <= 15 -> balanced ts ->
   Sx cpp ((l1, TLP) :: ts ++ [(l2, TRP)]) tr 0.
 Proof.
-  intros cpp ts tr rk l1 l2 IH Hrk15 Hbal f d s rest out n _ Hd Hn Hlen Hop _ Hj Hnd _ _ _ Hc.
+  intros cpp ts tr rk l1 l2 IH Hrk15 Hbal f d s rest out n _ Hd Hn Hlen Hop _ Hj Hnd _ _ _ _ Hc.
   cbn [length] in Hn. rewrite app_length in Hn. cbn [length] in Hn.
   cbn [app] in *. rewrite <- app_assoc in *. cbn [app] in *.
   cbn [length] in Hlen. rewrite app_length in Hlen. cbn [length] in Hlen.
@@ -132,6 +133,7 @@ Proof.
     - intros r a Hr. apply quiet_closer; [left; reflexivity|lia].
     - intros _ a. apply quiet_closer; [left; reflexivity|lia].
     - intros _ a. apply quiet_closer; [left; reflexivity|lia].
+    - intros _ _. apply quiet_closer; [left; reflexivity|lia].
     - unfold mkafter. apply cont_quiet; [exact Hrk15|]. intros r Hr. apply quiet_closer; [left; reflexivity|exact Hr]. }
   rewrite Hin.
   assert (Hcall : match bef s with
@@ -190,7 +192,7 @@ Lemma Sx_bin : forall cpp o l ra ta ka rb tb kb,
   ender2 ra -> starter1 rb -> ra <> [] ->
   Sx cpp (ra ++ (l, TOp (bin_opr o)) :: rb) (B (l, TOp (bin_opr o)) ta tb) (binrank o).
 Proof.
-  intros cpp o l ra ta ka rb tb kb IHa IHb Hka Hkb Hend Hst Hra f d s rest out n Hrk Hd Hn Hlen Hop Hps Hj Hnd Hq Hq14 Hq1 Hc.
+  intros cpp o l ra ta ka rb tb kb IHa IHb Hka Hkb Hend Hst Hra f d s rest out n Hrk Hd Hn Hlen Hop Hps Hj Hnd Hq Hq14 Hq1 Hz Hc.
   destruct (binrank_range o) as [Hk3 Hk13].
   set (k := binrank o) in *. set (op := (l, TOp (bin_opr o))) in *.
   rewrite app_length in Hn. cbn [length] in Hn.
@@ -225,6 +227,7 @@ Proof.
       - intros E. lia.
       - intros E a0. unfold s1, sa, mkafter. cbn [bef asgn].
         rewrite <- rev_mid. apply Hq. lia.
+      - intros E. lia.
       - unfold mkafter. apply cont_quiet; [lia|]. intros r Hr. unfold s1, sa, mkafter. cbn [bef asgn stk depth].
         rewrite <- rev_mid. apply Hq. lia. }
     change (t1 :: rb' ++ rest) with (rb ++ rest). rewrite Hb.
@@ -258,6 +261,7 @@ Proof.
   - intros r a0 Hr. apply quiet_binop; [apply Hend|]. fold k. lia.
   - intros E. lia.
   - intros E a0. apply quiet_binop; [apply Hend|]. fold k. lia.
+  - intros E. lia.
   - fold sa. unfold cont.
     destruct (Nat.eq_dec ka k) as [->|Hne].
     + apply Hstep; [lia|]. cbn [length] in *. lia.
